@@ -84,6 +84,10 @@ def check(case, ctx):
         want = b.expected()      # the intents, so that a stale view inside the library cannot hide on both sides
     else:
         want = canon(d)
+        if len(case.get("ops", ())) % 3 == 0:
+            from ..touch import readonly_touch
+            readonly_touch(d, len(case["ops"]))      # reads must not leak into what is written
+            ctx.count("touched_before_writing")
     ctx.count("fmt:" + fmt)
     ctx.nontrivial(c01.classify(b, ctx, case))
     try:
